@@ -506,7 +506,7 @@ class LoadExec:
                         codec = self.ctx.try_fold(kw.value)
                 return ("decode", self.term(e.func.value, env), norm_codec(codec), errors)
             if d in ("int", "complex", "slice", "frozenset", "tuple", "bytes", "str", "float", "set", "list", "bool"):
-                if d == "tuple" and len(e.args) == 1 and isinstance(e.args[0], ast.GeneratorExp):
+                if d == "tuple" and len(e.args) == 1 and isinstance(e.args[0], (ast.GeneratorExp, ast.ListComp)):
                     ge = e.args[0]
                     if len(ge.generators) == 1 and isinstance(ge.elt, ast.Call) and A.call_name(ge.elt) == "_load" \
                             and isinstance(ge.generators[0].iter, ast.Call) \
